@@ -1,4 +1,4 @@
-import TracklibVerif.Lemmas.FeaturesOps
+import TracklibVerif.Lemmas.FeaturesEval
 /-! Facts about the specification table (`ATab`): what is read after each primitive write, and the purge of
 the evaluator's temporaries. They are transported to the code's table through the simulation. -/
 set_option linter.unusedSectionVars false
